@@ -72,6 +72,14 @@ def draw : M Int := fun s =>
   | [] => .err .oob
   | c :: rest => .ok c { s with coins := rest }
 
+/-- the next `k` draws -/
+def drawN : Nat → M (List Int)
+  | 0 => pure []
+  | k+1 => do
+    let c ← draw
+    let cs ← drawN k
+    pure (c :: cs)
+
 /-- `throw false` -/
 def reject {α} : M α := fun s => .halt false false s
 
@@ -217,39 +225,77 @@ def prodPow (p : Int) (c beta : List Int) : Except Err Int :=
 /-- the group parameters as they enter every hash -/
 def pqgh (S : State) : List Int := [S.G.p, S.G.q, S.G.g, S.h]
 
+/-- entries `off, off+k, off+2k, …` of a list of draws (`n` of them) -/
+def stride (k off : Nat) (l : List Int) (n : Nat) : List Int :=
+  (List.range n).map fun i => l.getD (k * i + off) 0
+
+/-- position of index `j ≠ r` among the indices different from `r` -/
+def skipIdx (r j : Nat) : Nat := if j < r then j else j - 1
+
+/-- the simulated branch `j ≠ r`: `f_j = g^{λ_j γ_j} h^{t_j} G^{-λ_j}` (0 when `G^{λ_j}` has no inverse) -/
+def rotSim (S : State) (G : Int) (alpha beta : List Int) (j : Nat) (lam t : Int) : Except Err Int := do
+  let p := S.G.p; let q := S.G.q
+  let foo := lam * gamma q alpha beta j % q
+  let a ← fspowm S.tabG S.G.g foo p
+  let b ← fspowm S.tabH S.h t p
+  let f1 := a * b % p
+  let d ← spowm G lam p
+  let di := (invm d p).getD 0
+  pure (f1 * di % p)
+
+/-- all indices in order, stopping at the first failure -/
+def allE : List (Except Err Bool) → Except Err Bool
+  | [] => .ok true
+  | x :: xs => do
+    let b ← x
+    if b then allE xs else pure false
+
+/-- what the prover keeps from its second move: `u`, the draws `λ_j, t_j (j ≠ r)`, and `f` -/
+structure RotCtx where
+  u : Int
+  lt : List Int
+  f : List Int
+  deriving Repr
+
+def RotCtx.lam (x : RotCtx) (r j : Nat) : Int := x.lt.getD (2 * skipIdx r j) 0
+def RotCtx.t (x : RotCtx) (r j : Nat) : Int := x.lt.getD (2 * skipIdx r j + 1) 0
+
+/-- second move of the prover.  Draw order: `u`, then `λ_j, t_j` for every `j ≠ r` in increasing
+    order. -/
+def rotMove2 (S : State) (r : Nat) (alpha c beta : List Int) : M RotCtx := do
+  let n := alpha.length
+  let p := S.G.p
+  let u ← draw
+  let G ← liftE (prodPow p c beta)
+  let lt ← drawN (2 * (n - 1))
+  let sim ← liftE (mapE (fun j =>
+    if j = r then pure 0
+    else rotSim S G alpha beta j (lt.getD (2 * skipIdx r j) 0) (lt.getD (2 * skipIdx r j + 1) 0))
+    (List.range n))
+  let fr ← liftE (fspowm S.tabH S.h u p)
+  let f := (List.range n).map fun j => if j = r then fr else sim.getD j 0
+  sendAll f
+  pure ⟨u, lt, f⟩
+
+/-- third move of the prover: `λ_r = λ - Σ_{j≠r} λ_j`, `t_r = u + λ_r Σ_j s_j β_j` -/
+def rotMove3 (S : State) (r : Nat) (s beta : List Int) (x : RotCtx) (lambda : Int) : M Unit := do
+  let n := beta.length
+  let q := S.G.q
+  let others := sumMod q (((List.range n).filter (· ≠ r)).map (x.lam r))
+  let lamr := (lambda - others + q) % q
+  let tr := (x.u + dotMod q s beta * lamr % q) % q
+  sendAll ((List.range n).map fun j => if j = r then lamr else x.lam r j)
+  sendAll ((List.range n).map fun j => if j = r then tr else x.t r j)
+
 /-- `HooghSchoenmakersSkoricVillegasPUBROTZK::Prove_*` -/
 def rotProve (mode : Mode) (S : State) (r : Nat) (s alpha c : List Int) : M Unit := do
   let n := alpha.length
   if n < 2 ∨ n ≠ c.length ∨ ¬ r < n ∨ s.length ≠ n then abort
-  let p := S.G.p; let q := S.G.q
-  -- first move
+  let q := S.G.q
   let beta ← chalChain (chalP mode q) (alpha ++ c ++ pqgh S) n 0 0
-  -- second move
-  let u ← draw
-  let G ← liftE (prodPow p c beta)
-  let cols ← mapM' (fun j => do
-      if j = r then pure ((0 : Int), (0 : Int), (0 : Int))
-      else do
-        let lam ← draw
-        let t ← draw
-        let foo := lam * gamma q alpha beta j % q
-        let a ← liftE (fspowm S.tabG S.G.g foo p)
-        let b ← liftE (fspowm S.tabH S.h t p)
-        let f1 := a * b % p
-        let d ← liftE (spowm G lam p)
-        let di := (invm d p).getD 0
-        pure (f1 * di % p, lam, t)) (List.range n)
-  let fr ← liftE (fspowm S.tabH S.h u p)
-  let f := (List.range n).map fun j => if j = r then fr else (cols.getD j (0, 0, 0)).1
-  sendAll f
-  -- third move
-  let lambda ← chalP mode q (fun _ => alpha ++ c ++ f ++ beta ++ pqgh S)
-  let others := sumMod q ((List.range n).filterMap fun j =>
-    if j = r then none else some (cols.getD j (0, 0, 0)).2.1)
-  let lamr := (lambda - others + q) % q
-  let tr := (u + dotMod q s beta * lamr % q) % q
-  sendAll ((List.range n).map fun j => if j = r then lamr else (cols.getD j (0, 0, 0)).2.1)
-  sendAll ((List.range n).map fun j => if j = r then tr else (cols.getD j (0, 0, 0)).2.2)
+  let x ← rotMove2 S r alpha c beta
+  let lambda ← chalP mode q (fun _ => alpha ++ c ++ x.f ++ beta ++ pqgh S)
+  rotMove3 S r s beta x lambda
 
 /-- the per-index check `h^{t_k} = f_k (G / g^{γ_k})^{λ_k}` -/
 def rotCheck (S : State) (G : Int) (alpha beta : List Int) (k : Nat) (fk lamk tk : Int) :
@@ -264,32 +310,37 @@ def rotCheck (S : State) (G : Int) (alpha beta : List Int) (k : Nat) (fk lamk tk
     let e ← mpzPowm base lamk p
     pure (lhs == e * fk % p)
 
-/-- all indices in order, stopping at the first failure -/
-def allE : List (Except Err Bool) → Except Err Bool
-  | [] => .ok true
-  | x :: xs => do
-    let b ← x
-    if b then allE xs else pure false
+/-- the verifier's reads of the second move -/
+def rotRead1 (S : State) (n : Nat) : M (List Int) := do
+  let f ← readChecked (checkElement .schnorr S.G) n
+  if !(← good) then reject
+  pure f
+
+/-- the verifier's reads of the third move -/
+def rotRead2 (q : Int) (n : Nat) : M (List Int × List Int) := do
+  let lamk ← readChecked (inRange q) n
+  let tk ← readChecked (inRange q) n
+  if !(← good) then reject
+  pure (lamk, tk)
+
+/-- the verifier's equations: `λ = Σ_j λ_j`, then the check of every index -/
+def rotChecks (S : State) (alpha c beta f : List Int) (lambda : Int) (lamk tk : List Int) :
+    Except Err Bool := do
+  if lambda ≠ sumMod S.G.q lamk then return false
+  let G ← prodPow S.G.p c beta
+  allE ((List.range alpha.length).map fun k =>
+    rotCheck S G alpha beta k (f.getD k 0) (lamk.getD k 0) (tk.getD k 0))
 
 /-- `HooghSchoenmakersSkoricVillegasPUBROTZK::Verify_*` -/
 def rotVerify (mode : Mode) (S : State) (alpha c : List Int) : M Unit := do
   let n := alpha.length
   if n < 2 ∨ n ≠ c.length then abort
-  let p := S.G.p; let q := S.G.q
-  -- first move
+  let q := S.G.q
   let beta ← chalChain (chalV mode q) (alpha ++ c ++ pqgh S) n 0 0
-  -- second move
-  let f ← readChecked (checkElement .schnorr S.G) n
-  if !(← good) then reject
+  let f ← rotRead1 S n
   let lambda ← chalV mode q (fun _ => alpha ++ c ++ f ++ beta ++ pqgh S)
-  -- third move
-  let lamk ← readChecked (inRange q) n
-  let tk ← readChecked (inRange q) n
-  if !(← good) then reject
-  if lambda ≠ sumMod q lamk then reject
-  let G ← liftE (prodPow p c beta)
-  let ok ← liftE (allE ((List.range n).map fun k =>
-    rotCheck S G alpha beta k (f.getD k 0) (lamk.getD k 0) (tk.getD k 0)))
+  let (lamk, tk) ← rotRead2 q n
+  let ok ← liftE (rotChecks S alpha c beta f lambda lamk tk)
   if !ok then reject
 
 /-! ### VRHE: `Y_k = X_{k-r} · (g^{s_k}, h^{s_k})` -/
@@ -307,53 +358,67 @@ def vrheCommit (S : State) (Yk : Card) (a uk tk : Int) : Except Err (Int × Card
   let ht ← fspowm S.tabH S.h tk p
   pure (hk, ⟨d * gt % p, e * ht % p⟩)
 
+/-- what the prover keeps from its second move -/
+structure VrheCtx where
+  ar : List Int       -- α_{k-r}
+  ut : List Int       -- the draws u_0, t_0, u_1, t_1, …
+  opm : List Int      -- the draws o_0, p_0, m_0, o_1, …
+  hk : List Int
+  Ak : List Card
+  v : Int
+  fk : List Int
+  Fk : List Card
+  deriving Repr
+
+/-- second move of the prover (with the first move of EXP-ZK).  Draw order:
+    `u_0, t_0, u_1, t_1, …`, then `o_0, p_0, m_0, o_1, …`. -/
+def vrheMove2 (S : State) (r : Nat) (s : List Int) (Y : List Card) (alpha : List Int) : M VrheCtx := do
+  let n := s.length
+  let q := S.G.q
+  let ar := (List.range n).map fun i => alpha.getD (subMod n r i) 0
+  let ut ← drawN (2 * n)
+  let first ← liftE (mapE (fun i =>
+    vrheCommit S (Y.getD i ⟨0, 0⟩) (ar.getD i 0) (ut.getD (2 * i) 0) (ut.getD (2 * i + 1) 0))
+    (List.range n))
+  let hk := first.map fun x => x.1
+  let Ak := first.map fun x => x.2
+  let v := ((List.range n).foldl (fun acc i =>
+    (acc + (ar.getD i 0 * s.getD i 0 % q + ut.getD (2 * i + 1) 0) % q) % q) (0 : Int))
+  sendAll hk
+  sendAll (flatCards Ak)
+  send v
+  let opm ← drawN (3 * n)
+  let second ← liftE (mapE (fun i =>
+    vrheCommit S (Y.getD i ⟨0, 0⟩) (opm.getD (3 * i) 0) (opm.getD (3 * i + 1) 0)
+      (opm.getD (3 * i + 2) 0)) (List.range n))
+  let fk := second.map fun x => x.1
+  let Fk := second.map fun x => x.2
+  sendAll fk
+  sendAll (flatCards Fk)
+  pure ⟨ar, ut, opm, hk, Ak, v, fk, Fk⟩
+
+/-- the responses `τ_k = o_k + λ α_{k-r}`, `ρ_k = p_k + λ u_k`, `μ_k = m_k + λ t_k` -/
+def vrheMove4 (q : Int) (n : Nat) (x : VrheCtx) (lambda : Int) : M Unit := do
+  sendAll ((List.range n).map fun i => (lambda * x.ar.getD i 0 % q + x.opm.getD (3 * i) 0) % q)
+  sendAll ((List.range n).map fun i =>
+    (lambda * x.ut.getD (2 * i) 0 % q + x.opm.getD (3 * i + 1) 0) % q)
+  sendAll ((List.range n).map fun i =>
+    (lambda * x.ut.getD (2 * i + 1) 0 % q + x.opm.getD (3 * i + 2) 0) % q)
+
+/-- hash input of the second challenge -/
+def vrheHash2 (S : State) (X Y Ak Fk : List Card) (hk fk : List Int) (v : Int) : List Int :=
+  flatCards X ++ flatCards Y ++ flatCards Ak ++ flatCards Fk ++ hk ++ fk ++ pqgh S ++ [v]
+
 /-- `HooghSchoenmakersSkoricVillegasVRHE::Prove_*` -/
 def vrheProve (mode : Mode) (S : State) (r : Nat) (s : List Int) (X Y : List Card) : M Unit := do
   let n := s.length
   if n < 2 ∨ ¬ r < n ∨ n ≠ X.length ∨ X.length ≠ Y.length then abort
   let q := S.G.q
-  -- first move
   let alpha ← chalChain (chalP mode q) (flatCards X ++ flatCards Y ++ pqgh S) n 0 0
-  -- second move
-  let first ← mapM' (fun i => do
-      let a := alpha.getD (subMod n r i) 0
-      let uk ← draw
-      let tk ← draw
-      let (hk, Ak) ← liftE (vrheCommit S (Y.getD i ⟨0, 0⟩) a uk tk)
-      pure (hk, Ak, uk, tk)) (List.range n)
-  let hk := first.map fun x => x.1
-  let Ak := first.map fun x => x.2.1
-  let uk := first.map fun x => x.2.2.1
-  let tk := first.map fun x => x.2.2.2
-  let v := ((List.range n).foldl (fun acc i =>
-    (acc + (alpha.getD (subMod n r i) 0 * s.getD i 0 % q + tk.getD i 0) % q) % q) (0 : Int))
-  sendAll hk
-  sendAll (flatCards Ak)
-  send v
-  -- first move of EXP-ZK
-  let second ← mapM' (fun i => do
-      let ok ← draw
-      let pk ← draw
-      let mk ← draw
-      let (fk, Fk) ← liftE (vrheCommit S (Y.getD i ⟨0, 0⟩) ok pk mk)
-      pure (fk, Fk, ok, pk, mk)) (List.range n)
-  let fk := second.map fun x => x.1
-  let Fk := second.map fun x => x.2.1
-  sendAll fk
-  sendAll (flatCards Fk)
-  -- second move of EXP-ZK
-  let lambda ← chalP mode q (fun _ =>
-    flatCards X ++ flatCards Y ++ flatCards Ak ++ flatCards Fk ++ hk ++ fk ++ pqgh S ++ [v])
-  -- third move of EXP-ZK
-  let resp := (List.range n).map fun i =>
-    let x := second.getD i (0, ⟨0, 0⟩, 0, 0, 0)
-    ((lambda * alpha.getD (subMod n r i) 0 % q + x.2.2.1) % q,
-     (lambda * uk.getD i 0 % q + x.2.2.2.1) % q,
-     (lambda * tk.getD i 0 % q + x.2.2.2.2) % q)
-  sendAll (resp.map fun x => x.1)
-  sendAll (resp.map fun x => x.2.1)
-  sendAll (resp.map fun x => x.2.2)
-  rotProve mode S r uk alpha hk
+  let x ← vrheMove2 S r s Y alpha
+  let lambda ← chalP mode q (fun _ => vrheHash2 S X Y x.Ak x.Fk x.hk x.fk x.v)
+  vrheMove4 q n x lambda
+  rotProve mode S r (stride 2 0 x.ut n) alpha x.hk
 
 /-- `g^{τ_k} h^{ρ_k} = f_k h_k^λ` -/
 def vrheCheck1 (S : State) (lambda hk fk tau rho : Int) : Except Err Bool := do
@@ -374,61 +439,83 @@ def vrheCheck2 (S : State) (lambda : Int) (Yk Ak Fk : Card) (tau mu : Int) : Exc
   let r2 ← mpzPowm Ak.c2 lambda p
   pure (d * gm % p == r1 * Fk.c1 % p && e * hm % p == r2 * Fk.c2 % p)
 
-/-- `Π_j A_j X_j^{-α_j}`: `none` when an inverse does not exist (`throw false`) -/
-def vrheProduct (p : Int) (X Ak : List Card) (alpha : List Int) : Except Err (Option Card) :=
-  ((X.zip Ak).zip alpha).foldlM (fun (acc : Option Card) (x : (Card × Card) × Int) =>
-    match acc with
+/-- one factor `A_j X_j^{-α_j}` multiplied into the accumulator; `none`: no inverse (`throw false`) -/
+def vrheProdStep (p : Int) (L : Card) (Xj Aj : Card) (a : Int) : Except Err (Option Card) := do
+  let b1 ← mpzPowm Xj.c1 a p
+  match invm b1 p with
+  | none => pure none
+  | some i1 =>
+    let l1 := L.c1 * (i1 * Aj.c1 % p) % p
+    let b2 ← mpzPowm Xj.c2 a p
+    match invm b2 p with
     | none => pure none
-    | some L => do
-      let b1 ← mpzPowm x.1.1.c1 x.2 p
-      match invm b1 p with
-      | none => pure none
-      | some i1 =>
-        let l1 := L.c1 * (i1 * x.1.2.c1 % p) % p
-        let b2 ← mpzPowm x.1.1.c2 x.2 p
-        match invm b2 p with
-        | none => pure none
-        | some i2 => pure (some ⟨l1, L.c2 * (i2 * x.1.2.c2 % p) % p⟩)) (some ⟨1, 1⟩)
+    | some i2 => pure (some ⟨l1, L.c2 * (i2 * Aj.c2 % p) % p⟩)
+
+/-- `Π_j A_j X_j^{-α_j}` over the indices `js` -/
+def vrheProduct (p : Int) (X Ak : List Card) (alpha : List Int) : List Nat → Card → Except Err (Option Card)
+  | [], L => pure (some L)
+  | j :: js, L => do
+    match ← vrheProdStep p L (X.getD j ⟨0, 0⟩) (Ak.getD j ⟨0, 0⟩) (alpha.getD j 0) with
+    | none => pure none
+    | some L' => vrheProduct p X Ak alpha js L'
+
+/-- the verifier's reads of the second move -/
+def vrheRead1 (S : State) (n : Nat) : M (List Int × List Card × Int × List Int × List Card) := do
+  let elem := checkElement .schnorr S.G
+  let hk ← readChecked elem n
+  let Ak ← readPairsChecked elem n
+  let v ← recv
+  if !inRange S.G.q v then reject
+  if !(← good) then reject
+  let fk ← readChecked elem n
+  let Fk ← readPairsChecked elem n
+  if !(← good) then reject
+  pure (hk, Ak, v, fk, Fk)
+
+/-- the verifier's reads of the fourth move -/
+def vrheRead2 (q : Int) (n : Nat) : M (List Int × List Int × List Int) := do
+  let tau ← readChecked (inRange q) n
+  let rho ← readChecked (inRange q) n
+  let mu ← readChecked (inRange q) n
+  if !(← good) then reject
+  pure (tau, rho, mu)
+
+/-- the two EXP-ZK equations of every index -/
+def vrheChecks (S : State) (Y : List Card) (lambda : Int) (hk : List Int) (Ak : List Card)
+    (fk : List Int) (Fk : List Card) (tau rho mu : List Int) : Except Err Bool := do
+  let n := Y.length
+  let ok1 ← allE ((List.range n).map fun i =>
+    vrheCheck1 S lambda (hk.getD i 0) (fk.getD i 0) (tau.getD i 0) (rho.getD i 0))
+  if !ok1 then return false
+  allE ((List.range n).map fun i =>
+    vrheCheck2 S lambda (Y.getD i ⟨0, 0⟩) (Ak.getD i ⟨0, 0⟩) (Fk.getD i ⟨0, 0⟩) (tau.getD i 0)
+      (mu.getD i 0))
+
+/-- `Π_j A_j X_j^{-α_j} = (g^v, h^v)` -/
+def vrheFinal (S : State) (X Ak : List Card) (alpha : List Int) (v : Int) : Except Err Bool := do
+  let p := S.G.p
+  match ← vrheProduct p X Ak alpha (List.range alpha.length) ⟨1, 1⟩ with
+  | none => pure false
+  | some L =>
+    let r1 ← fpowm S.tabG S.G.g v p
+    let r2 ← fpowm S.tabH S.h v p
+    pure (L.c1 == r1 && L.c2 == r2)
 
 /-- `HooghSchoenmakersSkoricVillegasVRHE::Verify_*` -/
 def vrheVerify (mode : Mode) (S : State) (X Y : List Card) : M Bool := do
   let n := X.length
   if n < 2 ∨ n ≠ Y.length then abort
-  let p := S.G.p; let q := S.G.q
-  let elem := checkElement .schnorr S.G
-  -- first move
+  let q := S.G.q
   let alpha ← chalChain (chalV mode q) (flatCards X ++ flatCards Y ++ pqgh S) n 0 0
-  -- second move
-  let hk ← readChecked elem n
-  let Ak ← readPairsChecked elem n
-  let v ← recv
-  if !inRange q v then reject
-  if !(← good) then reject
-  let fk ← readChecked elem n
-  let Fk ← readPairsChecked elem n
-  if !(← good) then reject
-  let lambda ← chalV mode q (fun _ =>
-    flatCards X ++ flatCards Y ++ flatCards Ak ++ flatCards Fk ++ hk ++ fk ++ pqgh S ++ [v])
-  let tau ← readChecked (inRange q) n
-  let rho ← readChecked (inRange q) n
-  let mu ← readChecked (inRange q) n
-  if !(← good) then reject
-  let ok1 ← liftE (allE ((List.range n).map fun i =>
-    vrheCheck1 S lambda (hk.getD i 0) (fk.getD i 0) (tau.getD i 0) (rho.getD i 0)))
-  if !ok1 then reject
-  let ok2 ← liftE (allE ((List.range n).map fun i =>
-    vrheCheck2 S lambda (Y.getD i ⟨0, 0⟩) (Ak.getD i ⟨0, 0⟩) (Fk.getD i ⟨0, 0⟩) (tau.getD i 0)
-      (mu.getD i 0)))
-  if !ok2 then reject
+  let (hk, Ak, v, fk, Fk) ← vrheRead1 S n
+  let lambda ← chalV mode q (fun _ => vrheHash2 S X Y Ak Fk hk fk v)
+  let (tau, rho, mu) ← vrheRead2 q n
+  let ok ← liftE (vrheChecks S Y lambda hk Ak fk Fk tau rho mu)
+  if !ok then reject
   rotVerify mode S alpha hk
-  let L ← liftE (vrheProduct p X Ak alpha)
-  match L with
-  | none => reject
-  | some L =>
-    let r1 ← liftE (fpowm S.tabG S.G.g v p)
-    let r2 ← liftE (fpowm S.tabH S.h v p)
-    if L.c1 ≠ r1 ∨ L.c2 ≠ r2 then reject
-    pure true
+  let ok ← liftE (vrheFinal S X Ak alpha v)
+  if !ok then reject
+  pure true
 
 /-! ### the statement as `SchindelhauerTMCG::TMCG_ProveStackEquality_Hoogh` derives it from a stack secret -/
 
